@@ -449,7 +449,9 @@ func level(e *Expr) int {
 		return 2
 	case Seq:
 		return 3
-	case Label:
+	case Label, Throw:
+		// a throw stands where a labelled expression may stand: it takes no
+		// label, prefix or suffix operator unless parenthesised
 		return 4
 	case And, Not:
 		return 5
